@@ -347,8 +347,29 @@ Fixpoint node_writes_okb (prev_owner : T) (prev_ep : N) (cs : list ncmd) (obs : 
 
 (* ------------------------------------------------------------------------------------ *)
 
+(* kind 2 (offline witness search only, translators/lease_search.py): run a schedule with the
+   default oracle and report whether two replicas hold different blocks at one height *)
+Fixpoint run_plain (c : cfg) (s : sys) (steps : list T) : option sys :=
+  match steps with
+  | [] => Some s
+  | t :: rest => match run_step_with c s t [] with
+                 | Some (s', _) => run_plain c s' rest
+                 | None => None
+                 end
+  end.
+
 Definition main25 (input observed : T) : T :=
   match input with
+  | L [I 2%Z; L [n; reps; budget; ttl; maxlen; attempts]; L steps] =>
+      match getNat n, getNat reps, getNat budget, getN ttl, getN maxlen, getNat attempts with
+      | Some n, Some reps, Some budget, Some ttl, Some maxlen, Some attempts =>
+          let c := mkCfg n (calculate_quorum n budget) ttl maxlen attempts in
+          match run_plain c (init_sys c reps) steps with
+          | Some sf => L [L [tB (has_fork sf); tFinal sf]; tN 1]
+          | None => tErr 3
+          end
+      | _, _, _, _, _, _ => tErr 2
+      end
   | L [I 0%Z; L cmds] =>
       match mapM T_ncmd cmds with
       | Some cs =>
